@@ -54,6 +54,26 @@ static FILE* g_out = nullptr;
 static long long g_records = 0;
 static double g_lmin2 = 0, g_lmax2 = 0;
 static snapshot g_pre_op, g_pre_pass;
+static bool g_swaps_enabled = true, g_in_band = false;
+
+// the mesh already satisfies the edge-length band and (when swaps are enabled) the triangle quality rule; with a margin
+// so that the verdict does not hinge on the last bit
+static bool in_band(cell& c) {
+    auto& N = cell_tester::nodes(c);
+    for (const edge& e : c.get_edge_set()) {
+        const double l2 = (N[e.n1()].pos() - N[e.n2()].pos()).squared_norm();
+        if (!(l2 > g_lmin2 * (1 + 1e-9) && l2 < g_lmax2 * (1 - 1e-9))) return false;
+    }
+    if (g_swaps_enabled)
+        for (auto& f : cell_tester::faces(c)) if (f.is_used()) {
+            auto t = cell_tester::tri(f);
+            const vec3 &A = N[t[0]].pos(), &B = N[t[1]].pos(), &C = N[t[2]].pos();
+            const double per = (B - A).norm() + (C - B).norm() + (A - C).norm();
+            const double score = (36. / std::sqrt(3.)) * 0.5 * (B - A).cross(C - A).norm() / (per * per);
+            if (!(score > 0.2 * (1 + 1e-9))) return false;
+        }
+    return true;
+}
 static std::vector<std::string> g_pass_ops;
 
 static void emit(const char* op, cell& c, const snapshot& pre, long a, long b, long f1, long f2, const std::string& threw, double v1, double v2, bool is_pass) {
@@ -110,7 +130,10 @@ static void emit(const char* op, cell& c, const snapshot& pre, long a, long b, l
     if (!std::strcmp(op, "merge") || !std::strcmp(op, "merge_blocked")) sel_ok = len2 < g_lmin2;
     j.key("num").obj();
     j.key("mom_ok").b(mom_ok).key("surv_ok").b(surv_ok).key("mid_ok").b(mid_ok).key("n_new").i(n_new).key("labels_ok").b(labels_ok).key("sel_ok").b(sel_ok);
-    j.key("len2").d(len2).key("v1").d(v1).key("v2").d(v2);
+    // TLC has no reals: doubles are logged as text (for the reader), the pass counters as integers
+    { char buf[96]; snprintf(buf, sizeof buf, "%.17g", len2); j.key("len2").str(buf); }
+    if (is_pass) { j.key("v1").i((long long)v1).key("v2").i((long long)v2); }
+    else { char buf[96]; snprintf(buf, sizeof buf, "%.17g %.17g", v1, v2); j.key("v").str(buf); }
     const double vtol = 1e-12 * (std::abs(pre.vol6) + 1e-300), atol = 1e-12 * (pre.area + 1e-300);
     j.key("vol_same").b(std::abs(post.vol6 - pre.vol6) <= vtol * 64);
     j.key("area_same").b(std::abs(post.area - pre.area) <= atol * 64);
@@ -120,7 +143,7 @@ static void emit(const char* op, cell& c, const snapshot& pre, long a, long b, l
     if (is_pass) {
         long ns = 0, nm = 0, nw = 0;
         for (auto& s : g_pass_ops) { ns += s == "split"; nm += s == "merge"; nw += s == "swap"; }
-        j.key("n_split").i(ns).key("n_merge").i(nm).key("n_swap").i(nw);
+        j.key("n_split").i(ns).key("n_merge").i(nm).key("n_swap").i(nw).key("in_band").b(g_in_band);
     }
     j.end_obj();
     std::string body = j.text();   // the record object is still open: append the big parts
@@ -133,7 +156,7 @@ static void emit(const char* op, cell& c, const snapshot& pre, long a, long b, l
 static void hook(int phase, const char* op, cell* c, long n1, long n2, long f1, long f2, double v1, double v2) {
     const bool is_pass = !std::strcmp(op, "pass");
     if (phase == 0) {
-        if (is_pass) { g_pre_pass = take(*c); g_pass_ops.clear(); }
+        if (is_pass) { g_pre_pass = take(*c); g_pass_ops.clear(); g_in_band = in_band(*c); }
         else g_pre_op = take(*c);
         return;
     }
@@ -163,6 +186,7 @@ int main(int argc, char** argv) {
     setvbuf(stdout, NULL, _IONBF, 0);
     if (argc < 5) { fprintf(stderr, "usage: refine_driver c01|c11 <npasses> <seed> <out> [max_records]\n"); return 2; }
     const long long max_records = argc > 5 ? atoll(argv[5]) : 1000000;
+    const size_t max_nodes = argc > 6 ? (size_t)atoll(argv[6]) : 150;
     const int npass = atoi(argv[2]);
     std::mt19937_64 rng(strtoull(argv[3], 0, 10));
     g_out = fopen(argv[4], "w");
@@ -171,7 +195,7 @@ int main(int argc, char** argv) {
     int done = 0, cellno = 0;
     while (done < npass && g_records < max_records) {
         // a fresh cell: sphere of level 1 or 2 (or a stretched one), scaled to micrometres, anywhere in space
-        shapes::tmesh m = shapes::sphere((cellno % 4 == 3) ? 2 : 1);
+        shapes::tmesh m = shapes::sphere((cellno % 4 == 3 && max_nodes > 70) ? 2 : 1);
         // every third cell is strongly stretched so that sliver triangles (quality score < 0.2) trigger real edge swaps
         const double sx = (cellno % 3 == 2) ? 6. + 6. * U(rng) : 1 + U(rng), sy = 1 + 0.5 * U(rng);
         for (size_t i = 0; i < m.nn(); i++) { m.pos[3 * i] *= sx; m.pos[3 * i + 1] *= sy; }
@@ -206,6 +230,7 @@ int main(int argc, char** argv) {
             if (p % 3 == 2) { lmin = lens.front() * 0.9; lmax = lens.back() * 1.1; if (lmax <= lmin) lmax = lmin * 2; }
             else { lmin = lens[(size_t)(U(rng) * 0.35 * lens.size())]; lmax = lmin * (1.3 + 1.7 * U(rng)); }
             const bool swaps = (rng() % 4) != 0;
+            g_swaps_enabled = swaps;
             local_mesh_refiner lmr(lmin, lmax, swaps);
             g_lmin2 = lmr.get_l_min_squared(); g_lmax2 = lmr.get_l_max_squared();
             try { lmr.refine_mesh(c); }
@@ -216,7 +241,7 @@ int main(int argc, char** argv) {
                 try { c->rebase(); } catch (std::exception& ex) { threw = ex.what(); }
                 emit("rebase", *c, pre, -1, -1, -1, -1, threw, 0, 0, false);
             }
-            if (c->get_nb_of_faces() < 4 || c->get_nb_of_nodes() > 150) break;
+            if (c->get_nb_of_faces() < 4 || c->get_nb_of_nodes() > max_nodes) break;
         }
     }
     fclose(g_out);
